@@ -25,6 +25,7 @@ def main():
     pid = a.pid.upper()
     tier = a.tier if a.tier in ('quick', 'thorough') else 'quick'
     seed = common.get_seed()
+    common.STREAM_BUDGET = 400.0 if tier == 'quick' else 1500.0
     sys.path.insert(0, common.REPO)
     import logging
     logging.disable(logging.CRITICAL)
